@@ -15,12 +15,15 @@ import (
 func runLoss(tier string, seed int64, shard, nshard int, r *res.Result) {
 	r.Rule = "streams of n datagrams (sizes 0..1500, unique ids) injected into a LossFilter in front of a recording sink NIC; chances incl. out-of-range values; oracle: deterministic ends, 6-sigma binomial bound in between, forwarded = in-order duplicate-free unmodified subsequence (same chunk object, same addresses, same payload hash); distinct = (chance, stream) pairs"
 	r.Assumptions = []string{"math/rand global source cannot be seeded from outside: verdict for 0<chance<100 is statistical (false-alarm probability about 2e-9 per stream)"}
-	chances := []int{-5, 0, 1, 2, 10, 33, 50, 67, 90, 98, 99, 100, 101, 250}
-	n := 20000
-	streams := 2
+	// every chance value 0..100 plus out-of-range ones: a bias may exist for particular values only
+	chances := []int{-5, 101, 250}
+	for c := 0; c <= 100; c++ {
+		chances = append(chances, c)
+	}
+	n := 300000
+	streams := 1
 	if tier == "thorough" {
-		n = 2000000
-		streams = 1
+		n = 3000000
 	}
 	rng := rand.New(rand.NewSource(seed*31 + int64(shard)))
 	idx := 0
@@ -39,9 +42,9 @@ func runLoss(tier string, seed int64, shard, nshard int, r *res.Result) {
 			}
 			sent := make([]vn.Seen, 0, n)
 			for i := 0; i < n; i++ {
-				size := []int{0, 1, 8, 100, 1200, 1500}[rng.Intn(6)]
-				if tier == "thorough" {
-					size = []int{0, 8, 20}[rng.Intn(3)]
+				size := []int{0, 8, 20}[rng.Intn(3)]
+				if i%64 == 0 {
+					size = []int{1, 100, 1200, 1500}[rng.Intn(4)]
 				}
 				c := vnet.VerifNewChunkUDP(vn.UDP("10.0.0.1", 1000+i%50), vn.UDP("10.0.0.2", 2000+i%7), vn.Payload(uint64(i+1), size))
 				sent = append(sent, vn.Snap(c))
